@@ -1,7 +1,161 @@
-//! Shared helpers for harnesses.
+//! Shared helpers for harnesses: symbolic arrays, backend constructors, a thin view that inherits
+//! every default body of `Vec1View`, and the `Logged` output container of C10.
+use std::collections::VecDeque;
+use std::sync::Arc;
+
+use ndarray::{Array1, ArrayView1, s};
+use tea_core::prelude::*;
 
 /// Stub for `std::fmt::format`: error paths (`tbail!`, `terr!`) build messages with `format!`;
 /// the text is irrelevant to every property checked here.
 pub fn fmt_stub(_args: std::fmt::Arguments<'_>) -> String {
     String::new()
+}
+
+/// `[T; N]` of unconstrained values.
+pub fn any_arr<T: kani::Arbitrary + Copy, const N: usize>() -> [T; N] {
+    kani::any()
+}
+
+/// Option<i32> array with an unconstrained null mask.
+pub fn any_opt_arr<const N: usize>() -> [Option<i32>; N] {
+    kani::any()
+}
+
+/// small-alphabet i32 (forces ties) in lo..=hi
+pub fn small_i32(lo: i32, hi: i32) -> i32 {
+    let v: i32 = kani::any();
+    kani::assume(v >= lo && v <= hi);
+    v
+}
+
+/// f64 built from a small integer with a symbolic NaN flag (canonical null), exact in f64.
+pub fn small_f64_or_nan(lo: i32, hi: i32) -> f64 {
+    if kani::any() { f64::NAN } else { small_i32(lo, hi) as f64 }
+}
+
+// ---------------------------------------------------------------------------------------------
+// Backend constructors: each turns the logical sequence `x` into one container type.
+// ---------------------------------------------------------------------------------------------
+
+/// VecDeque whose ring buffer head is rotated by `rot` slots (wrapped layout when 0 < rot).
+pub fn deque_rot<T: Clone + Default>(x: &[T], rot: usize) -> VecDeque<T> {
+    let mut d: VecDeque<T> = VecDeque::with_capacity(x.len().max(1));
+    for _ in 0..rot {
+        d.push_back(T::default());
+        d.pop_front();
+    }
+    for v in x {
+        d.push_back(v.clone());
+    }
+    d
+}
+
+/// owned ndarray
+pub fn nd_owned<T: Clone>(x: &[T]) -> Array1<T> {
+    Array1::from_vec(x.to_vec())
+}
+
+/// storage for a reversed view: returns the array holding x reversed; `.slice(s![..;-1])` is x.
+pub fn nd_rev_storage<T: Clone>(x: &[T]) -> Array1<T> {
+    let mut v = x.to_vec();
+    v.reverse();
+    Array1::from_vec(v)
+}
+
+/// storage for a strided view with step `k`: element i of x sits at k*i; `.slice(s![..;k])` is x.
+pub fn nd_step_storage<T: Clone + Default>(x: &[T], k: usize) -> Array1<T> {
+    let mut v = Vec::with_capacity(x.len() * k);
+    for e in x {
+        v.push(e.clone());
+        for _ in 1..k {
+            v.push(T::default());
+        }
+    }
+    Array1::from_vec(v)
+}
+
+/// A thin view over a slice that supplies only the required methods of the view traits, so that
+/// every *default* body in `tea-core/src/vec_core/cores/view.rs` is what runs.
+pub struct DefView<'a, T>(pub &'a [T]);
+
+impl<T> GetLen for DefView<'_, T> {
+    fn len(&self) -> usize {
+        self.0.len()
+    }
+}
+
+impl<T: Clone> TIter<T> for DefView<'_, T> {
+    fn titer(&self) -> impl TIterator<Item = T> + '_ {
+        self.0.iter().cloned()
+    }
+}
+
+impl<'s, T: Clone> Vec1View<T> for DefView<'s, T> {
+    type SliceOutput<'a>
+        = &'a [T]
+    where
+        Self: 'a;
+
+    fn get_backend_name(&self) -> &'static str {
+        "defview"
+    }
+
+    fn slice<'a>(&'a self, start: usize, end: usize) -> TResult<Self::SliceOutput<'a>>
+    where
+        T: 'a,
+    {
+        Ok(&self.0[start..end])
+    }
+
+    unsafe fn uget(&self, index: usize) -> T {
+        // checked on purpose: an out-of-range index from a kernel becomes a harness failure
+        self.0[index].clone()
+    }
+}
+
+/// Uniform read access to the window objects handed to slice callbacks (no allocation).
+pub trait Win<T> {
+    fn wlen(&self) -> usize;
+    fn wget(&self, j: usize) -> T;
+}
+
+impl<T: Copy> Win<T> for &[T] {
+    fn wlen(&self) -> usize {
+        self.len()
+    }
+    fn wget(&self, j: usize) -> T {
+        self[j]
+    }
+}
+
+impl<T: Copy> Win<T> for std::collections::vec_deque::Iter<'_, T> {
+    fn wlen(&self) -> usize {
+        ExactSizeIterator::len(self)
+    }
+    fn wget(&self, j: usize) -> T {
+        *self.clone().nth(j).unwrap()
+    }
+}
+
+impl<T: Copy> Win<T> for ArrayView1<'_, T> {
+    fn wlen(&self) -> usize {
+        self.len()
+    }
+    fn wget(&self, j: usize) -> T {
+        self[j]
+    }
+}
+
+impl<T: Copy> Win<T> for Vec<T> {
+    fn wlen(&self) -> usize {
+        self.len()
+    }
+    fn wget(&self, j: usize) -> T {
+        self[j]
+    }
+}
+
+pub fn umin(a: usize, b: usize) -> usize {
+    if a < b { a } else { b }
 }
